@@ -135,9 +135,15 @@ FINDINGS = [
          cases=[prog("C09", P + "def mk(n):\n    return [n, n + 1]\n" + 'a = analog_read("A0")\nx = a\ns = "s"\nL = [1, 2, 3]\nwhile True:\n    K = L\n    K.append(1)\n    mon.write(len(K))\n    L.remove(L[0])\n    mon.write(x)\n    mon.write(len(L))\n    mon.write(L[0])\n    mon.write(L[-1])\n',
                      [{"passes": 4, "ar": {"A0": [2]}}], "K = L; K.append(1); L.remove(L[0]) in the main loop, 4 passes", placement="shared")]),
     dict(id="KF-C01-c-operator-semantics", property="C01", status="open", commit=None,
-         what="'//' and '%' with a negative operand use C truncation, '**' is emitted verbatim (does not compile), and 'and'/'or' yield 0/1 instead of the operand value",
+         what="an integer raised to a NEGATIVE run-time integer exponent is typed int (2 ** -b gives 1 or 0 where Python gives a float)",
+         cases=[prog("C01", P + AB + "mon.write(2 ** a)\n", [{"passes": 0, "ar": {"A0": [3], "A1": [12]}}], "a = -7: 2 ** a")]),
+    dict(id="KF-C01-and-or-values", property="C01", status="fixed", commit="7c0c42b",
+         what="'and' / 'or' over numbers yielded 0/1 instead of the deciding operand (x = a or 9 stored 1)",
+         cases=[prog("C01", P + AB + "mon.write(a and b)\nmon.write(a or b)\n", [{"passes": 0, "ar": {"A0": [3], "A1": [12]}}], "a and b / a or b with integer operands")]),
+    dict(id="KF-C01-floor-mod-pow", property="C01", status="fixed", commit="f559fd7",
+         what="'//' and '%' used C truncation (-7 // 2 == -3, -7 % 3 == -1), a float operand of '%' did not compile, '**' was emitted verbatim (did not compile)",
          cases=[prog("C01", P + AB + "mon.write(a // 2)\nmon.write(a % 3)\n", [{"passes": 0, "ar": {"A0": [3], "A1": [12]}}], "a = -7: a // 2 and a % 3"),
-                prog("C01", P + AB + "mon.write(a and b)\nmon.write(a or b)\n", [{"passes": 0, "ar": {"A0": [3], "A1": [12]}}], "a and b / a or b with integer operands")]),
+                prog("C01", P + AB + "f = a / 2\nmon.write(f % 2)\nmon.write(b ** 2)\nx = a\nx //= 2\nx %= 3\nmon.write(x)\n", [{"passes": 0, "ar": {"A0": [3], "A1": [12]}}], "float %, **, //= and %=")]),
     dict(id="KF-C01-list-value-semantics", property="C01", status="open", commit=None,
          what="lists have value semantics on the device: 'M = L' and a list passed to a helper are copies, so a later append through one name is not seen through the other (Python aliases)",
          cases=[prog("C01", P + AB + "L = [a, 2, 3]\nM = L\nL.append(9)\nmon.write(len(M))\nmon.write(M[-1])\n", [{"passes": 0, "ar": {"A0": [3], "A1": [12]}}], "M = L; L.append(9); len(M)"),
@@ -218,6 +224,16 @@ FINDINGS = [
          what="variables / parameters / helpers / devices named like a C++ keyword or an Arduino core name (default, long, new, delay, millis, HIGH, setup, loop ...) were accepted: the sketch did not compile, and a helper called delay() was called by the generated waits", cases=[]),
     dict(id="KF-C04-helper-above-declaration", property="C04", status="fixed", commit="79000ee",
          what="device commands inside a helper defined above the declaration were dispatched by method name only: sv.write(40) printed 40 on the serial line, rgb.blink(..) was emitted as Led.blink (did not compile), m.set_speed(..) was rejected", cases=[]),
+    dict(id="KF-C01-map-round-pow", property="C01", status="fixed", commit="30d0371",
+         what="Utils.map() was Arduino's integer map() typed int (map(512, 0, 1023, 0.0, 5.0) == 2), round() the Arduino macro (argument evaluated twice, ties away from zero), pow() C's pow() truncated into an int", cases=[]),
+    dict(id="KF-C06-inexpressible-expressions", property="C06", status="fixed", commit="b6c55fc",
+         what="calls of Python built-ins without a counterpart (sum, sorted, divmod, chr, ord, any, list, print as a value ...), min()/max() of one sequence, string repetition and list arithmetic were accepted and emitted verbatim (sketch did not compile)", cases=[]),
+    dict(id="KF-C06-file-scope-lambda", property="C06", status="fixed", commit="07a376a",
+         what="the single-evaluation forms of chained comparisons and numeric and/or were emitted as [&] lambdas also where the expression initialises a file-scope variable (v = 3 and 2.5): did not compile", cases=[]),
+    dict(id="KF-C06-truth-of-strings-and-lists", property="C06", status="fixed", commit="16ea69e",
+         what="'if text:', 'while items and n < 3:', 'not text', 'bool(items)', a conditional expression testing a string / list, and str() without an argument were accepted and did not compile", cases=[]),
+    dict(id="KF-C06-mixed-type-expressions", property="C06", status="fixed", commit="b3933b1",
+         what="string-vs-number and list comparisons, augmented arithmetic on lists / strings, str() of a list, and/or yielding a string, a string assigned to a number variable, a string literal on the left of a comparison were accepted and did not compile", cases=[]),
     dict(id="KF-C14-lcd-rebind", property="C14", status="open", commit=None,
          what="one name bound first to a parallel LCD and later to an I2C LCD (or the reverse): both libraries are requested, but the emitter keeps only the first display (one header, one object); outside the documented style, like KF-C05-rebind",
          cases=c14_rebind_cases()),
